@@ -21,6 +21,9 @@ func init() {
 			ruleEOF(c, r, readerAPI(c), readerCone(c), "lib:")
 			ruleDeferFlush(c, r, "", "cmd/gxz", "", "lzma")
 			ruleDeferResult(c, r, "")
+			// "corrupt input => exits non-zero, input untouched": the corruption must be noticed - the
+			// container checks (CRC, check, sizes, padding) of the xz reader
+			ruleXZReaderChecks(c, r, "lib:")
 		},
 	})
 	register(&propCheck{
